@@ -458,25 +458,25 @@ where
     type Item = Step;
 
     fn next(&mut self) -> Option<Self::Item> {
-        let (Reverse(distance), step @ (_, v)) = self.heap.pop()?;
-        let dist_ptr = self.dist.as_mut_ptr();
+        loop {
+            let (Reverse(distance), step @ (_, v)) = self.heap.pop()?;
+            let dist_ptr = self.dist.as_mut_ptr();
 
-        for (x, w) in self.digraph.out_neighbors_weighted(v) {
-            let distance = distance + w;
-            let dist_x = unsafe { dist_ptr.add(x) };
+            for (x, w) in self.digraph.out_neighbors_weighted(v) {
+                let distance = distance + w;
+                let dist_x = unsafe { dist_ptr.add(x) };
 
-            if distance < unsafe { *dist_x } {
-                unsafe { *dist_x = distance };
+                if distance < unsafe { *dist_x } {
+                    unsafe { *dist_x = distance };
 
-                self.heap.push((Reverse(distance), (Some(v), x)));
+                    self.heap.push((Reverse(distance), (Some(v), x)));
+                }
+            }
+
+            if distance == unsafe { *dist_ptr.add(v) } {
+                return Some(step);
             }
         }
-
-        if distance == unsafe { *dist_ptr.add(v) } {
-            return Some(step);
-        }
-
-        None
     }
 }
 
